@@ -34,7 +34,10 @@ pub(crate) fn convert(
     // Only `userSpaceOnUse` clipPaths can be shared,
     // because `objectBoundingBox` one will be converted into user one
     // and will become node-specific.
-    let cacheable = units == Units::UserSpaceOnUse;
+    //
+    // A clip path linked via `clip-path` is converted for the same object,
+    // so an `objectBoundingBox` one anywhere down the chain makes this one node-specific as well.
+    let cacheable = units == Units::UserSpaceOnUse && !links_bbox_units(node);
     if cacheable {
         if let Some(clip) = cache.clip_paths.get(node.element_id()) {
             return Some(clip.clone());
@@ -96,6 +99,26 @@ pub(crate) fn convert(
         // A clip path without children is invalid.
         None
     }
+}
+
+/// Checks that a clip path linked to this one, directly or not, has `objectBoundingBox` units.
+fn links_bbox_units(node: SvgNode) -> bool {
+    let mut visited = vec![node];
+    let mut curr = node;
+    while let Some(link) = curr.attribute::<SvgNode>(AId::ClipPath) {
+        if link.tag_name() != Some(EId::ClipPath) || visited.contains(&link) {
+            break;
+        }
+
+        if link.attribute(AId::ClipPathUnits) == Some(Units::ObjectBoundingBox) {
+            return true;
+        }
+
+        visited.push(link);
+        curr = link;
+    }
+
+    false
 }
 
 fn resolve_clip_path_transform(node: SvgNode, state: &converter::State) -> Option<Transform> {
